@@ -135,6 +135,10 @@ class NpShim:
         return np.isreal(x)
 
     def allclose(self, a, b, rtol=1e-05, atol=1e-08, **kw):
+        if type(a).__name__ == "Parameter" and hasattr(a, "value"):
+            a = a.value
+        if type(b).__name__ == "Parameter" and hasattr(b, "value"):
+            b = b.value
         if has_sym(a) or has_sym(b):
             # |a - b| <= atol + rtol*|b| element-wise; forks on symbolic values
             aa = np.asarray(a, dtype=object).reshape(-1) if isinstance(a, (np.ndarray, list, tuple)) else np.array([a], dtype=object)
@@ -151,6 +155,8 @@ class NpShim:
         return _elem("exp", x, np.exp)
 
     def log(self, x):
+        if SYMBOLIC_LOG_CONSTANTS[0] and type(x) in (int, float) and x > 0 and x != 1:
+            return sym._fn("log", sym.sym_const(x))  # ln 2 etc. stay exact symbols (contract opt-in)
         return _elem("log", x, np.log)
 
     def sqrt(self, x):
@@ -214,6 +220,7 @@ class NpShim:
         return RANDOM_PROXY[0] if RANDOM_PROXY[0] is not None else np.random
 
 
+SYMBOLIC_LOG_CONSTANTS = [False]
 RANDOM_PROXY = [None]  # set to a recording stub of numpy.random by contracts that need the call order
 LINALG_HOOKS = {}  # name -> contract stub used instead of numpy.linalg.<name> on symbolic input
 
@@ -331,6 +338,8 @@ class FloatShim(metaclass=_FloatMeta):
 def sym_erf(x):
     from scipy.special import erf as _erf
 
+    if type(x) is SymComplex:
+        return sym._fn("erf", x)
     if is_sym(x):
         return sym._fn("erf", x)
     if isinstance(x, np.ndarray) and x.dtype == object:
